@@ -74,6 +74,8 @@ CLS_INFO = {
 def expected_result(cls, fn, pos, kw, doc):
     """the documented per-item booleans, or 'refuse' for Key-on-list / Index-on-mapping"""
     like, pre = CLS_INFO[cls]
+    if isinstance(doc, (list, dict)) and not doc:
+        return "refuse"          # an empty document is not filterable: `Data` raises TypeError (documented)
     if like == "key" and not isinstance(doc, dict):
         return "refuse"
     if like == "index" and not isinstance(doc, list):
@@ -189,6 +191,16 @@ def corpus_cases():
         ("Value", "equal_to_approx", [1], {}, [1.000000001, 1.1, "a", True, None]),
         ("Value", "equal_to_approx", [1.0, 0.5], {}, [1.4, 1.5, 0.5, 2 ** 53 + 1]),
         ("Value", "truthy", [], {}, [0, 0.0, "", [], {}, None, "0", [0]]),
+        # boundaries suggested by the model-mutation run (DESIGN 4d)
+        ("Value", "equal_to_approx", [9007199254740992.0, 1], {}, [2 ** 53 + 1, 2 ** 53 + 3, 2 ** 53 - 1]),
+        ("Value", "has_factor", [()], {}, ["abc", "", 3]),
+        ("Value", "factor_of", ["abc"], {}, [[1], {}, 5, (), (1,)]),
+        ("Value", "in_", [""], {}, ["", "a", 1]),
+        ("Value", "equal_to_approx", [10 ** 400], {}, [1.5, 10 ** 400, "a"]),
+        ("Value", "factor_of", [2.5], {}, [10 ** 400, 5, 2 ** 1024]),
+        ("Value", "in_", [[1, 1, True]], {}, [1, 1.0, True, 2]),
+        # empty top-level documents: `Data({})` / `Data([])` is a TypeError for every condition
+        ("Value", "truthy", [], {}, {}), ("Key", "equal_to", ["a"], {}, {}), ("Index", "equal_to", [0], {}, []), ("Value", "truthy", [], {}, []),
         ("Value", "in_", ["abc"], {}, ["a", "", "bc", "d", 1, None]),
         ("Value", "in_", [{"a": 1, 1: 2}], {}, ["a", 1.0, True, [1], None]),
         ("Value", "in_", [5], {}, [1, "a"]),
